@@ -154,12 +154,24 @@ def align_sweep(rng):
 BIGLIM = (1 << 32) + (1 << 20)
 
 
+def big_ok():
+    """the bigstream buffers are really touched (4 GiB + 2 GiB at the same time on the AES-NI build): do not turn a small
+    machine's OOM killer into a reported violation"""
+    try:
+        for l in open("/proc/meminfo"):
+            if l.startswith("MemAvailable:"):
+                return int(l.split()[1]) >= 12 << 20          # kB
+    except Exception:
+        pass
+    return True
+
+
 def big_cases(r, tier, mult, hw):
     """thorough tier and failing-input search (mult >= 10) only: ONE crypto_aesctr_stream call of >= 2^32 bytes (and, on
     the AES-NI build, one of >= 2^31 bytes) followed by a second call on the same object -- what no model run reaches: a byte
     or block count of one call kept in 32 bits.  The software path needs ~40 s for 4 GiB, so it gets one such call and
     no second pass (`again`) over the buffer."""
-    if tier == "quick" and mult < 10:
+    if (tier == "quick" and mult < 10) or not big_ok():
         return []
     def one(base, again):
         k = r.range(0, 1 << 20)
@@ -339,6 +351,8 @@ def check(ctx):
                "gcc ASan/UBSan as the out-of-bounds detector in the real code"]
     if not have_aesni():
         trusted.append("NOTE: this CPU has no AES-NI; the aes-ni component was not run")
+    if not big_ok():
+        trusted.append("NOTE: less than 12 GiB of memory available; the bigstream cases (one call of >= 2^32 bytes) were not run")
     # the first-use dispatch of crypto_aes.c / crypto_aesctr.c under an allocation failure in the self-test, and key blocks
     # at 8-mod-16 addresses: component defined with C03 (judged by Spec.Aes / Spec.Ctr), run here as well
     from props import c03 as _c03
